@@ -65,6 +65,20 @@ Systematic ==
              <<Ent(Q, <<>>), Ent(Q, OneNote(1, 64)), Ent(Q, <<>>), Ent(Q, OneNote(2, 10))>>, <<Ent(Q, OneNote(1, 64)), Ent(Q, OneNote(1, 64))>>}} \cup
   {OneBarProg(<<"C">>, <<4,4>>, <<Ent(v, OneNote(1, 64)), Ent(v, <<>>), Ent(v, OneNote(3, 20))>>, NoInstr, 1) : v \in {w \in Vocabulary : w.b >= 4}} \cup
   {OneBarProg(<<"C">>, <<4,4>>, <<Ent(Q, OneNote(1, 64))>>, Midi(nr), 0) : nr \in 0..127}
+\* ---- systematic programs for the notation exporters (C19)
+Pn(n, o) == <<[n |-> n, o |-> o, ch |-> 1, vel |-> 64]>>
+Titled(p, ti, au, su) == [bpm |-> p.bpm, repeat |-> p.repeat, tracks |-> p.tracks, title |-> ti, author |-> au, subtitle |-> su]
+Texts == {<<"Untitled", "", "">>, <<"A & B", "J. S. <Bach>", "op. \"1\"">>, <<"Tom's <tune> & more", "me & you", "x > y">>}
+Systematic19 ==
+  {OneBarProg(<<"C">>, <<4,4>>, <<Ent(Q, Pn(n, o))>>, NoInstr, 0) : n \in N35, o \in 0..8} \cup
+  {OneBarProg(<<"C">>, <<8,1>>, <<Ent(v, Pn(<<"C">>, 4)), Ent(v, <<>>)>>, NoInstr, 0) : v \in Vocabulary} \cup
+  {OneBarProg(<<"C">>, <<8,1>>, <<Ent(v, Pn(<<"D">>, 4) \o Pn(<<"F","#">>, 4) \o Pn(<<"A","b">>, 5)), Ent(w, Pn(<<"C">>, 3)), Ent(v, <<>>), Ent(Q, Pn(<<"E">>, 4))>>, NoInstr, 0) :
+       v \in {x \in Vocabulary : x.r # <<1,1>> \/ x.d > 0}, w \in {Q, [b |-> 5, d |-> 0, r |-> <<3,2>>]}} \cup
+  {OneBarProg(k, m, <<>>, NoInstr, 0) : k \in {<<"C">>, <<"e","b">>}, m \in {<<4,4>>, <<6,8>>}} \cup
+  {OneBarProg(<<"C">>, <<4,4>>, <<Ent(Q, c)>>, NoInstr, 0) : c \in {Pn(<<"C">>, 4), Pn(<<"C">>, 4) \o Pn(<<"E">>, 4), Pn(<<"C">>, 4) \o Pn(<<"E">>, 4) \o Pn(<<"G">>, 4),
+        Pn(<<"C">>, 4) \o Pn(<<"E">>, 4) \o Pn(<<"G">>, 4) \o Pn(<<"B","b">>, 4), Pn(<<"C">>, 4) \o Pn(<<"E">>, 4) \o Pn(<<"G">>, 4) \o Pn(<<"B","b">>, 4) \o Pn(<<"D">>, 5)}} \cup
+  {Titled(OneBarProg(<<"G">>, <<3,4>>, <<Ent(Q, Pn(<<"C">>, 4))>>, Midi(40), 0), t[1], t[2], t[3]) : t \in Texts}
+Sys19Init == prog = ndJsonSerialize(IOEnv.OUT, SetToSeq({Titled(p, "Untitled", "", "") : p \in {q \in Systematic19 : "title" \notin DOMAIN q}} \cup {q \in Systematic19 : "title" \in DOMAIN q})) /\ steps = 0
 SysInit == prog = ndJsonSerialize(IOEnv.OUT, SetToSeq(Systematic)) /\ steps = 0
 SysNext == FALSE /\ UNCHANGED <<prog, steps>>
 =============================================================================
